@@ -95,6 +95,17 @@ def families(tier):
         frag.append(("f=%d rings-across" % f, ".".join(["[C][C][Ring1][Ring2]"] * f)))
         frag.append(("f=%d empty" % f, "." * f + "[N]" + "." * f + "[C][Ring1][C]" + "." * f))
     fams.append(("fragments", "default", frag))
+    # (6b) a ring in a later, *shorter* fragment reaching back over the dot into an earlier one (global atom numbering),
+    # also onto atoms that already carry ring bonds, chiral targets, two rings to the same earlier atom
+    back = []
+    for a in range(1, 7):
+        for b in range(1, 4):
+            for q in range(0, 9):
+                d = misc.INDEX[q]
+                back.append(("a=%d b=%d Q=%d" % (a, b, q), "[C]" * a + "." + "[N]" * b + "[Ring1]" + d))
+                back.append(("a=%d b=%d Q=%d ring-in-first" % (a, b, q),
+                             "[C@]" + "[C]" * a + "[Ring1][Ring1]" + "." + "[O]" * b + "[=Ring1]" + d + "[Ring1]" + d))
+    fams.append(("rings-reaching-back-over-dot", "default", back))
     # (7) branch budgets around 16 and 256 with rings inside the window and straddling it
     bud = []
     for q in (14, 15, 16, 17, 254, 255, 256, 257):
